@@ -3,6 +3,7 @@ algos.c: maxGridDiskSize, the safe recursive disk (`_gridDiskDistancesInternal`)
 open-addressing array exactly as in C, the unsafe ring walks, gridRingUnsafe, gridDisksUnsafe.
 -/
 import H3Model.Neighbor
+import H3Model.Alloc
 
 namespace H3
 
@@ -112,6 +113,36 @@ def gridDiskDistances (origin : BitVec 64) (k : Int) : R (Array (BitVec 64) × A
       match diskInternal k n (k.toNat + 1) origin 0 st with
       | .error e => .error e
       | .ok st => .ok (st.out, st.dist)
+
+/-- `gridDiskDistances(origin, k, out, distances)` with its allocation: when the fast walk fails
+and the caller passed no `distances` array (`wantDist = false`, i.e. `gridDisk`), one calloc of
+`maxIdx * sizeof(int)` bytes is made and released. -/
+def gridDiskDistancesA (sched : Nat → Bool) (origin : BitVec 64) (k : Int) (wantDist : Bool) (a : AState) :
+    R (Array (BitVec 64) × Array Int) × AState :=
+  match gridDiskDistancesUnsafe origin k with
+  | (none, out, dist) =>
+    match maxGridDiskSize k with
+    | .error e => (.error e, a)
+    | .ok m =>
+      let n := m.toNat
+      (.ok (out ++ Array.replicate (n - out.size) 0#64, dist ++ Array.replicate (n - dist.size) 0), a)
+  | (some _, _, _) =>
+    match maxGridDiskSize k with
+    | .error e => (.error e, a)
+    | .ok m =>
+      let n := m.toNat
+      let st : DiskSt := { out := Array.replicate n 0#64, dist := Array.replicate n 0 }
+      if wantDist then
+        match diskInternal k n (k.toNat + 1) origin 0 st with
+        | .error e => (.error e, a)
+        | .ok st => (.ok (st.out, st.dist), a)
+      else
+        match a.alloc sched (n * 4) with
+        | (none, a) => (.error .memoryAlloc, a)
+        | (some d, a) =>
+          match diskInternal k n (k.toNat + 1) origin 0 st with
+          | .error e => (.error e, a.free d)
+          | .ok st => (.ok (st.out, st.dist), a.free d)
 
 /-- `gridDiskDistancesSafe` on zeroed buffers -/
 def gridDiskDistancesSafe (origin : BitVec 64) (k : Int) : R (Array (BitVec 64) × Array Int) :=
